@@ -206,6 +206,7 @@ type World struct {
 	strInit   map[*ssa.Global]string
 	rpoCache  map[*ssa.Function][]*ssa.BasicBlock
 	prop      string
+	invariantMethods []string
 	unroll    int // >0: loops are unrolled this many times instead of cut (replay aid only)
 }
 
@@ -324,6 +325,7 @@ func (vc *VC) script(relaxed bool) string {
 		fmt.Fprintf(&b, "(push 1)\n(assert %s)\n(echo \"@OB %s\")\n(check-sat)\n(pop 1)\n", and(ob.Reach, not(ob.Goal)), ob.Name)
 		fmt.Fprintf(&b, "(assert %s)\n", imp(ob.Reach, ob.Goal))
 	}
+	b.WriteString("(echo \"@VACUITY\")\n(check-sat)\n")
 	return b.String()
 }
 
